@@ -45,24 +45,37 @@ _NUM3 = re.compile(r"^(\d+)\.(\d+)\.(\d+)(?:[-.+]|$)")
 
 
 def work_cli(bins, tz, cases):
-    env = core.base_env(bins, tz=tz)
+    env0 = env = core.base_env(bins, tz=tz)
     bad = []
     n = 0
     for c in cases:
         kind = c[0]
+        env = env0
         if kind == "calver":
-            _, preset, t, fmt, via = c
+            _, preset, t, fmt, via = c[:5]
+            # the version state decides the tier of the smart presets; the date must be there in every one of them
+            pre, post, dev, dist, dirty = STATES[c[5] if len(c) > 5 else 0]
+            # dirty states take the documented wall-clock instant instead of the commit time: the pinned clock is set to the same
+            # instant, so the expected date does not depend on which of the two zerv reads
+            env = core.base_env(bins, tz=tz, now=t) if dirty else env0
             if via == "bumped":
                 argv = ["version", "--source", "none", "--tag-version", "1.0.7", "--bumped-timestamp", str(t), "--schema", preset, "--output-format", fmt]
+                if pre:
+                    argv += ["--pre-release-label", pre[0], "--pre-release-num", str(pre[1])]
+                for flag, val in (("--post", post), ("--dev", dev), ("--distance", dist)):
+                    if val is not None:
+                        argv += [flag, str(val)]
+                if dirty:
+                    argv += ["--dirty"]
                 r = core.run_zerv(bins, argv, env=env)
             elif via == "both":
                 # commit time and tag time both known: the commit time decides ("or, failing that, tag time")
                 other = (t * 7919 + 86400 * 400) % (LAST_DAY * DAY)
-                ron = STDIN_OBJ % ("Some(%d)" % t, "Some(%d)" % other)
+                ron = stdin_obj("Some(%d)" % t, "Some(%d)" % other, c[5] if len(c) > 5 else 0)
                 argv = ["version", "--source", "stdin", "--schema", preset, "--output-format", fmt]
                 r = core.run_zerv(bins, argv, stdin=ron, env=env)
             else:
-                ron = STDIN_OBJ % ("None", "Some(%d)" % t)
+                ron = stdin_obj("None", "Some(%d)" % t, c[5] if len(c) > 5 else 0)
                 argv = ["version", "--source", "stdin", "--schema", preset, "--output-format", fmt]
                 r = core.run_zerv(bins, argv, stdin=ron, env=env)
             n += 1
@@ -72,7 +85,8 @@ def work_cli(bins, tz, cases):
             m = _NUM3.match(r["out"].strip())
             f = cal.fields(t)
             if not m or (int(m.group(1)), int(m.group(2)), int(m.group(3))) != (f["y"], f["m"], f["d"]):
-                bad.append(("calver-date-differs", "%s printed %r for t=%d; UTC date is %d-%d-%d (TZ=%s, via %s)" % (preset, r["out"].strip(), t, f["y"], f["m"], f["d"], tz, via), c))
+                bad.append(("calver-date-differs", "%s printed %r for t=%d; UTC date is %d-%d-%d (TZ=%s, via %s, version state %r)" % (
+                    preset, r["out"].strip(), t, f["y"], f["m"], f["d"], tz, via, STATES[c[5] if len(c) > 5 else 0]), c))
         elif kind == "ts":
             _, pat, t, via = c
             schema = '(core:[var(Major)], extra_core:[], build:[str("x"), var(ts("%s")), str("y")])' % pat
@@ -104,6 +118,25 @@ STDIN_OBJ = """(
         last_branch: None, last_commit_hash: None, last_timestamp: %s, last_tag_version: None, custom: {}),
 )"""
 
+# (pre-release, post, dev, distance, dirty): clean release, clean pre-release, pre-release + post, ahead of the tag, ahead with dev, dirty,
+# dirty pre-release ahead of the tag -- every tier of the smart presets with and without a pre-release
+STATES = [(None, None, None, None, False), (("rc", 2), None, None, None, False), (("alpha", 1), 3, None, None, False),
+          (None, None, None, 4, False), (("beta", 5), 2, 6, 3, False), (None, None, None, None, True), (("rc", 1), None, None, 2, True),
+          (("beta", 9), None, None, 0, False)]
+
+
+def stdin_obj(bumped, last, state):
+    pre, post, dev, dist, dirty = STATES[state]
+    o = lambda x: "None" if x is None else "Some(%d)" % x
+    s = STDIN_OBJ % (bumped, last)
+    s = s.replace("pre_release: None", "pre_release: %s" % ("None" if pre is None else "Some((label: %s, number: Some(%d)))" % (pre[0].capitalize(), pre[1])))
+    s = s.replace("post: None, dev: None", "post: %s, dev: %s" % (o(post), o(dev)))
+    s = s.replace("distance: None, dirty: None", "distance: %s, dirty: %s" % (o(dist), "Some(true)" if dirty else "None"))
+    return s
+
+
+EDGE_INSTANTS = [0, 1, 86399, 2 ** 31 - 1, 2 ** 31, 4102444800, 7258118399]
+
 
 def work_git(bins, seed, idx, tmp):
     """CalVer from a real repository: the *committer* time of HEAD decides (author and tagger dates differ on purpose);
@@ -119,13 +152,23 @@ def work_git(bins, seed, idx, tmp):
     n = 0
     try:
         repo = gitmodel.Repo(path, rng)
+        # every job puts one commit on an edge instant (the epoch itself, its first day, the i32 boundary, 2100, the last second of 2199):
+        # jobs 0..6 on the tagged commit, 7..13 on a later HEAD, and so on alternating
+        edge, edge_at = EDGE_INSTANTS[idx % len(EDGE_INSTANTS)], (idx // len(EDGE_INSTANTS)) % 3
+        if edge_at == 0:
+            repo.force_ctime = edge
         repo.commit()
-        repo.tag("v1.2.3", annotated=rng.random() < 0.5)
+        repo.tag(rng.choice(["v1.2.3", "v1.4.0-rc.2", "v1.0.0-alpha.1", "1.9.0b3", "v1.2.3.post4", "v1.5.0-beta.1.post.2"]), annotated=rng.random() < 0.5)
         for step in range(4):
+            # HEAD at the tag / ahead of it, clean / dirty: every tier of the smart presets
+            if rng.random() < 0.4:
+                repo.make_dirty(rng.choice(["modified", "untracked", "staged_new"]))
+            else:
+                repo.clean()
             head = repo.commits[repo.head_cid()]
             f = cal.fields(head["ctime"])
             tz = rng.choice(TZS)
-            env = core.base_env(bins, home=home, tz=tz)
+            env = core.base_env(bins, home=home, tz=tz, now=head["ctime"])   # dirty states read the (pinned) wall clock
             for preset, fmt in ((rng.choice(CALVER), "semver"), (rng.choice(CALVER), "pep440")):
                 r = core.run_zerv(bins, ["version", "-C", path, "--schema", preset, "--output-format", fmt], env=env)
                 n += 1
@@ -139,6 +182,8 @@ def work_git(bins, seed, idx, tmp):
             want = "1.0.0+%s.%d.%d" % (cal.resolve("compact_datetime", head["ctime"]), int(cal.resolve("YY", head["ctime"])), int(cal.resolve("WW", head["ctime"])))
             if r["exit"] != 0 or r["out"].strip() != want:
                 bad.append(("ts-component-differs", "git source: ts components printed %r, expected %r" % (r["out"].strip(), want), ("git", seed, idx)))
+            if edge_at == step + 1:
+                repo.force_ctime = edge
             repo.commit()
     except gitmodel.GitError as e:
         raise core.Inconclusive("git generator: %s" % e)
@@ -186,7 +231,7 @@ def run(ctx):
     ncal = 5000 if quick else 50000
     for i in range(ncal):
         t = rng.choice(ts) if rng.random() < 0.7 else rng.randrange(0, (LAST_DAY + 1) * DAY)
-        cases.append(("calver", rng.choice(CALVER), t, rng.choice(["semver", "pep440"]), rng.choice(["bumped", "bumped", "last", "both"])))
+        cases.append(("calver", rng.choice(CALVER), t, rng.choice(["semver", "pep440"]), rng.choice(["bumped", "bumped", "last", "both"]), i % len(STATES)))
     for p in cal.PATTERNS:
         for i in range(40 if quick else 600):
             cases.append(("ts", p, rng.choice(ts), ["bumped", "last", "both"][i % 3]))
@@ -199,7 +244,7 @@ def run(ctx):
         ctx.count("cli_runs_TZ=" + tz, r["n"])
         for sig, why, c in r["bad"]:
             ctx.refute(sig, why, dict(kind="cli", case=list(c), tz=tz))
-    for r in core.pmap(work_git, [(ctx.bins, "%s/%d" % (ctx.prop, ctx.seed), i, ctx.tmp) for i in range(16 if quick else 200)]):
+    for r in core.pmap(work_git, [(ctx.bins, "%s/%d" % (ctx.prop, ctx.seed), i, ctx.tmp) for i in range(21 if quick else 210)]):
         ctx.evaluations += r["n"]
         ctx.count("cli_runs_git_source", r["n"])
         for sig, why, c in r["bad"]:
